@@ -120,6 +120,18 @@ def gen_plan(rng, cfg, tier):
     else:
       ops.append(['advance', rng.choice([0.0, 0.5, 1.0, 1.0, 2.0, 5.0, 10.0, 30.0, 60.0, float(fmax),
                                          7.0 * fmax, 1000.0])])
+  if rng.random() < 0.25:
+    # the rules file is edited under the running aggregator: same aggregate names,
+    # other methods / frequencies (picked up by the 10 s reload, which clears all buffers)
+    lines = []
+    for line in cfg['files']['aggregation-rules.conf'].splitlines():
+      if '=' in line and '(' in line:
+        out = line.split()[0]
+        pat = line.split()[-1]
+        lines.append('%s (%d) = %s %s' % (out, rng.choice([1, 5, 10, 30]), rng.choice(METHODS), pat))
+    pos = rng.randint(1, len(ops))
+    ops[pos:pos] = [['file', 'aggregation-rules.conf', '\n'.join(lines) + '\n'],
+                    ['advance', rng.choice([10.0, 11.0, 20.5])]]
   return {'ops': ops, 'p_tie': rng.choice([0.0, 0.5, 0.9])}
 
 
